@@ -7,7 +7,7 @@ import re
 import sys
 
 VERIF = os.path.dirname(os.path.dirname(os.path.abspath(__file__)))
-HEAD = re.compile(r'^(#+ .*|\*\*.*\*\*:?\s*|[A-Z][^\n]{0,80}:)\s*$')
+HEAD = re.compile(r'^(#+ .*|\*\*[^*]*\*\*:?)\s*$')
 KEY = re.compile(r'need|manifest|trigger|require|condition', re.I)
 
 
@@ -20,7 +20,7 @@ def from_notes(path):
     take = False
     for ln in lines:
         if HEAD.match(ln.strip()):
-            if take and out:
+            if take and any(x.strip() for x in out):
                 break
             take = bool(KEY.search(ln))
             continue
